@@ -11,6 +11,7 @@ d=$(mktemp -d /tmp/gocv-seed-XXXXXX)
 pkg=.
 grep -q '^package fasthttpproxy' "$src/demo_test.go" && pkg=./fasthttpproxy
 grep -q '^package prefork' "$src/demo_test.go" && pkg=./prefork
+grep -q '^package stackless' "$src/demo_test.go" && pkg=./stackless
 res="id=$id prop=$prop"
 cp "$src/demo_test.go" "$d/repo/$pkg/zz_seed_demo_test.go"
 clean=$(cd "$d/repo" && go test -count=1 -vet=off -run 'TestSeededDemo' $pkg 2>&1 | tail -1)
